@@ -80,6 +80,38 @@ class ArrV:
         return self.fn(t) if self.fn is not None else t
 
 
+class SymSeq:
+    """a Python list of symbolic length: ``arr`` maps positions to elements, ``length`` is an Int term"""
+
+    def __init__(self, arr, length, name=None):
+        self.arr, self.length, self.name = arr, length, name
+
+    @staticmethod
+    def fresh(name, elem_sort):
+        return SymSeq(z3.FreshConst(z3.ArraySort(z3.IntSort(), elem_sort), name), z3.FreshConst(z3.IntSort(), name + "_len"), name)
+
+    def at(self, i):
+        return z3.Select(self.arr, i if is_sym(i) else z3.IntVal(i))
+
+
+class SymMap:
+    """a dict with symbolic content: ``arr`` maps keys to Int values, ``absent`` marks missing keys"""
+    ABSENT = -1
+
+    def __init__(self, arr, name=None):
+        self.arr, self.name = arr, name
+
+    def has(self, k):
+        return z3.Select(self.arr, k) != SymMap.ABSENT
+
+    def get(self, k):
+        return z3.Select(self.arr, k)
+
+
+def seq_len(x):
+    return x.length if isinstance(x, SymSeq) else (x.shape[0] if isinstance(x, ArrV) else len(x))
+
+
 def loop_nodes(fn_node):
     """For/While nodes of a function in source order (the loop ordinal used by contracts)"""
     return sorted((n for n in ast.walk(fn_node) if isinstance(n, (ast.For, ast.While))), key=lambda n: (n.lineno, n.col_offset))
@@ -106,8 +138,11 @@ class LoopHooks(Hooks):
         enum = False
         if isinstance(it, tuple) and it and it[0] == "enumerate":
             enum, it = True, it[1]
+        elems = None
+        if isinstance(it, SymSeq):
+            elems, it = it, SymRange(0, it.length, 1)       # iterate over positions, the target gets the element
         if not isinstance(it, SymRange):
-            raise Unsupported("annotated loop must iterate over range(...)")
+            raise Unsupported("annotated loop must iterate over range(...) or a symbolic sequence")
         step = it.c
         if is_sym(step) and not z3.is_int_value(step):
             pass
@@ -118,6 +153,8 @@ class LoopHooks(Hooks):
         def bind(j):
             """loop targets for iteration number j (0-based): value = lo + j*step"""
             val = lo + j * step
+            if elems is not None:
+                val = elems.at(val)
             if enum:
                 eng.assign(node.target, (j, val), env)
             else:
@@ -137,7 +174,9 @@ class LoopHooks(Hooks):
         # havoc
         for nme in spec["modifies"]:
             v = env[nme]
-            if isinstance(v, ArrV):
+            if nme in spec.get("havoc", {}):
+                env[nme] = spec["havoc"][nme](v)
+            elif isinstance(v, ArrV):
                 # arrays are mutated in place: havoc the *object* so that aliases (the caller's reference) see it
                 v.term = z3.FreshConst(v.term.sort(), f"{v.name or 'arr'}_h{ordinal}")
             elif is_sym(v) or isinstance(v, (int, float)):
